@@ -395,7 +395,8 @@ class FuncVerifier(object):
         reachable = 0
         for s in normal:
             if any(z3.is_false(x) for x in s.pc):
-                continue
+                # the literal False is never produced by a branch condition of the code: something evaluated to False was ASSUMED
+                raise ContractError('vacuous: the constant False was assumed on a path of %s' % self.c.key)
             sol = z3.Solver()
             sol.set('timeout', 1500)
             for h in s.pc:
